@@ -33,7 +33,7 @@ def _range_classes():
 
 
 def correspondence(ctx):
-    n = 12000 if ctx.thorough else 2500
+    n = 40000 if ctx.thorough else 2500
     T.run_corr(ctx, "corr_textvers", "vers-text", n)
     # registry clauses on the real objects
     for rc in _range_classes():
@@ -50,7 +50,7 @@ def correspondence(ctx):
             ctx.disagree("registry", k, str(rc.scheme), k, True, {"scheme": k, "range_class": rc.__name__,
                          "clause": "registry entry maps to a class that prints another scheme"}, spec=k)
     # round trip of range objects
-    per = 400 if ctx.thorough else 80
+    per = 1500 if ctx.thorough else 80
     for rc in _range_classes():
         if not isinstance(rc.scheme, str) or rc.version_class is None:
             continue
